@@ -87,7 +87,17 @@ def integrands(dims):
             tot = tot + np.floor(3 * _s(a, is3)).astype(int) * (k + 1)
         return tot
 
-    return {"separable": separable, "coupled": coupled, "first": first, "ramp": ramp, "intvals": intvals}
+    def cutoff(*args):
+        # a cut-off kernel: the plain Python integer 0 below the cut-off, floats above (mixed result types along the
+        # stream of point-by-point values; seeded change C18-G took each chunk's dtype from its first value)
+        tot = 0.0
+        for k, (a, is3) in enumerate(zip(args, dims)):
+            tot = tot + (1 if k % 2 == 0 else -1) * _s(a, is3)
+        if np.ndim(tot) == 0:
+            return 0 if tot < 0.1 else float(np.exp(-tot) + 0.5)
+        return np.where(tot < 0.1, 0, np.exp(-tot) + 0.5)
+
+    return {"separable": separable, "coupled": coupled, "first": first, "ramp": ramp, "intvals": intvals, "cutoff": cutoff}
 
 
 def reference(grids, f):
@@ -358,8 +368,22 @@ def run(ctx):
     hist = [(m, w, ctx.seed) for m in ("list", "repeated") for w in ("weights", "points", "augmented")]
     for res in lattice.pmap(_history_case, hist, ctx.workers):
         ctx.merge(res)
-    # constructor validation
+    # reported size of large products: the exact integer, also beyond 2**63 (nothing is enumerated here)
     from grid.ngrid import MultiDomainGrid
+    from grid.onedgrid import GaussLegendre
+
+    for npts, nd in ((40, 3), (40, 12), (16, 16), (150, 9), (7, 30)):
+        ctx.count(section="size")
+        with warnings.catch_warnings():
+            warnings.simplefilter("ignore")
+            md = MultiDomainGrid([GaussLegendre(npts)], num_domains=nd)
+            ml = MultiDomainGrid([GaussLegendre(npts)] * min(nd, 6))
+        ctx.nontrivial(("size", npts, nd), section="size")
+        if int(md.size) != npts**nd or int(ml.size) != npts ** min(nd, 6):
+            ctx.violation("size:not-the-number-of-combinations", f"MultiDomainGrid of {nd} x {npts} points reports size {md.size} "
+                          f"(list of {min(nd, 6)}: {ml.size}); the product set has {npts**nd} ({npts ** min(nd, 6)}) elements",
+                          {"route": "validation", "npts": npts, "domains": nd})
+    # constructor validation
 
     g = make_grid(2, False, "v", ctx.seed)
     for bad in (dict(grid_list=None), dict(grid_list=[]), dict(grid_list=[g, 3]), dict(grid_list=[g, g], num_domains=2),
